@@ -95,3 +95,11 @@ def first_diff(d):
         return None
     lab, o, e, kind = d
     return {"label": list(lab) if isinstance(lab, tuple) else lab, "observed": o, "expected": e, "kind": kind}
+
+
+def judgeable_dtype(values) -> bool:
+    """real dtypes whose arithmetic the float64-based tolerances describe (float32/float16 results are rounded coarser)"""
+    dt = values.dtype
+    if dt.kind in "iu":
+        return True
+    return dt.kind == "f" and dt.itemsize >= 8
